@@ -27,6 +27,8 @@ def run(ctx):
                    "per request, reserved authorities and port-less CONNECTs never reaching the connector; outbound outcomes include refused, "
                    "unreachable, connector timeout, never-completing connect (establishment timer under the paused clock), policy refusals, resolver "
                    "failure, EMFILE, multiplexer creation failure and ICMP not configured. Non-trivial = not (valid credentials and successful connect).")
+    # HTTP/3: the response head of a CONNECT while another tunnel of the session uses up the connection's send capacity
+    cov["h3_response_head_under_contention"] = __import__("h3conc_jobs").response_head_under_contention_job(ctx)
     return ctx.finish("model_checking", cov, assumptions=[
         "most outbound outcomes are injected through the scripted forwarder; ok / refused / ENETUNREACH / policy refusals / resolver failure are additionally produced by the real TcpForwarder on loopback (connect timeout and EHOSTUNREACH cannot be produced offline)",
         "trusted: TLC, scripted forwarder / HTTP clients, verif::tunnel door",
